@@ -184,6 +184,24 @@ CHECKS["C06"] = dict(
          "list elements are not generated. Which object a path denotes is the harness's reading of the scenario (the specification).",
     technique="Coq proof over dynamic-reference / scope-stack model + per-call differential correspondence (transcript and enumeration oracle in Coq)",
     ref="DESIGN.md §3 C06")
+CHECKS["C09"] = dict(
+    text="PARTIAL. Theorems (Coq, closed; Rand/Rnd.v: RandState objects as heap locations, for every generator and every solve "
+         "that is a function of the call's descriptor and the object's generator state): the global generator, the objects' "
+         "states and the user's handles never share a location; an operation that is not a call / set_randstate on o leaves o's "
+         "state alone and only a draw from a handle changes it (get_randstate returns an independent snapshot); set_randstate "
+         "copies its argument; an object's values are those of its own calls applied to its own state whatever happens in "
+         "between; restoring a snapshot replays exactly the values that followed it and the snapshot stays usable; one RandState "
+         "seeds several objects identically; the default state is one draw of Python's global generator. NOT a theorem (runtime "
+         "behaviour: hash-seed dependent iteration order, memory layout, Boolector's determinism, stray global draws): that the "
+         "real solve is such a function. Tie: every history (calls, mkFromSeed, get / set_randstate, draws from handles and the "
+         "global generator, built around snapshot -> calls -> unrelated operations -> restore -> same calls) runs in 4 fresh "
+         "processes (PYTHONHASHSEED 0 / 1 / 777 / 31337, unrelated randomizations + allocation churn + gc, debug / "
+         "solve_fail_debug / VSC_CAPTURE_SRCINFO); observations must be identical, values must be equal wherever the model's "
+         "state terms are equal, and no operation may draw from Python's global generator except to derive a default state.",
+    note="Objects of one history are instances of one synthesized class (scalars, enums, sub-objects, fixed- and random-size "
+         "lists) and are not modified between calls other than by randomization.",
+    technique="Coq proof over heap model of random states + multi-process differential correspondence (state-term equalities computed in Coq)",
+    ref="DESIGN.md §3 C09")
 CHECKS["C14"] = dict(
     text="PARTIAL. Theorems (Coq, closed): the range-trimming primitives of bounds inference never remove a value satisfying "
          "the bound; the randomising pattern's slices are exactly the low d bits, within the chosen range these bits (sign bit "
